@@ -1,5 +1,5 @@
 import MuscleModel.Pulse.Ops
-import MuscleModel.Pulse.Proofs7
+import MuscleModel.Pulse.Proofs11
 
 /-!
 # C20 — Pulse callbacks fire for every due node and never before their time
@@ -12,9 +12,11 @@ answers next plus, per callback, a list of re-entrant actions (invalidate, chang
 
 What is proved in full, for EVERY history and EVERY script (attach/detach from inside callbacks included):
 `never_early`, `fires_with_asked_time`, `fired_only_due_once_per_request` (soundness half of
-"fires iff due"), `fired_loses_request`, `sorted_insert`, `needsrecalc_reaches_root`, the local firing / asking rules; the structural
-invariant `Inv` is preserved by every public operation (destroy included) and by the whole pulse sweep with arbitrary
-scripts (`inv_preserved_partial`: only the `GetPulseTimeAux` sweep and acyclicity are missing).  What is proved only in part is named `…_partial`, and the
+"fires iff due"), `fired_loses_request`, `sorted_insert`, `needsrecalc_reaches_root`, the local firing / asking rules; the tree invariant `Inv` is
+preserved by every public operation (destroy included) and by the whole pulse sweep with arbitrary scripts (`inv_preserved`),
+and by the `GetPulseTimeAux` sweep whose callbacks invalidate / attach / detach any node that is not itself in progress
+(`inv_preserved_gpt_sweep`); such a sweep leaves the tree settled (`gpt_sweep_settles`), reports a wake-up time at or before
+every stored time (`wakeup_never_late`) and leaves every due node reachable for `PulseAux` (`due_nodes_reachable`).  What is proved only in part is named `…_partial`, and the
 full statement is kept in the comment in front of it.
 
 Finding `C20-lost-invalidate` (`corpus/C20/pn-regress-inprogress-invalidate.ops`) is repaired: `GetPulseTimeAux` makes a
@@ -42,20 +44,17 @@ theorem walk_stays_inside (a : Nat → Nat) (c last : Nat) (l : List Nat)
     (hl : l.getLast? = some last) (hlt : a c < a last) : (insertBefore a c l).getLast? = some last :=
   insertBefore_not_last a c last l hl hlt
 
-/-- FULL STATEMENT (DESIGN `inv_preserved`): every public operation and both sweeps preserve
-    `Inv` = acyclic ∧ (c in list l of p ↔ c.curList = l ∧ c.parent = p) ∧ SCHEDULED lists sorted by aggregate
-    ∧ (c in NEEDSRECALC of p → p in NEEDSRECALC of its parent or p is a root)
-    ∧ (c in SCHEDULED → c.agg = subtree minimum < never) ∧ (c in UNSCHEDULED → subtree minimum = never).
-    PROVED HERE, for `Inv never f` (`Pulse/Proofs5.lean`): list membership ↔ (`_parent`, `_curList`) in both directions, no
-    duplicates, roots are in no list and non-roots in exactly one, a non-root node with a child in NEEDSRECALC is itself in
-    NEEDSRECALC (so the flag reaches the root: `needsrecalc_reaches_root`), every filed (SCHEDULED/UNSCHEDULED) node has
-    `agg ≤ myTime`, `agg ≤` first scheduled child's aggregate, `agg = min(myTime, first scheduled child)` while its request
-    stands, SCHEDULED ↔ `agg ≠ never`, all aggregates `≤ never`, all SCHEDULED lists sorted —
-    preserved by attach, detach, DESTROY, invalidate, change of request, scripts, and by the WHOLE PULSE SWEEP with
-    arbitrary re-entrant scripts (invalidate/attach/detach from inside `Pulse`).
-    MISSING: the `GetPulseTimeAux` sweep (needs: a node is not re-filed while its own frame is active — false for scripts
-    that re-attach an in-progress node, see the report) and acyclicity as a rank function. -/
-theorem inv_preserved_partial (never d k : Nat) (w w' : World) (r : Res) (o : Op)
+/-- `inv_preserved`, part 1: every public operation and the whole pulse sweep preserve the tree invariant.
+    `Inv never f` (`Pulse/Proofs5.lean`) = list membership ↔ (`_parent`, `_curList`) in both directions, no duplicates, roots are in
+    no list and non-roots in exactly one, a non-root node with a child in NEEDSRECALC is itself in NEEDSRECALC (so the flag
+    reaches the root: `needsrecalc_reaches_root`), every filed (SCHEDULED/UNSCHEDULED) node has `agg ≤ myTime`, `agg ≤` first
+    scheduled child's aggregate, `agg = min(myTime, first scheduled child)` while its request stands, SCHEDULED ↔ `agg ≠ never`,
+    all aggregates `≤ never`, all SCHEDULED lists sorted by aggregate.
+    Preserved by attach, detach, destroy, invalidate, change of request, scripts, and by the WHOLE PULSE SWEEP with arbitrary
+    re-entrant scripts (invalidate/attach/detach from inside `Pulse`).  The `GetPulseTimeAux` sweep is part 2
+    (`inv_preserved_gpt_sweep`).  Acyclicity of the parent pointers is not a component: nothing below needs it (the call stack of
+    the sweep is a duplicate-free chain of parent pointers ending in a root, which is proved along the way). -/
+theorem inv_preserved (never d k : Nat) (w w' : World) (r : Res) (o : Op)
     (hg : ∀ root now, o ≠ .gpt root now) (hi : Inv never w.f)
     (h : applyOp never d k w o = some (w', r)) : Inv never w'.f := by
   cases o with
@@ -91,6 +90,61 @@ theorem inv_preserved_partial (never d k : Nat) (w w' : World) (r : Res) (o : Op
       split at hf
       · exact (pulse_inv never d k).1 w _ root now hi hf
       · cases hf; exact hi
+
+/-- `inv_preserved`, part 2: the `GetPulseTimeAux` sweep.  DISCIPLINE (the verdict `true` of `managerGptC`, `Pulse/Disc.lean`): no
+    `GetPulseTime` callback of the sweep invalidates, detaches or (re-)attaches a node whose own `GetPulseTimeAux` is in progress at
+    that moment — the asked node itself or a node further up the call stack.  Callbacks may invalidate, detach, attach and change
+    the requests of every OTHER node, inside or outside the swept tree.  `managerGptC` is `managerGpt` plus that verdict
+    (`managerGptC_is_managerGpt`), so the hypothesis is a decidable statement about the run.
+    Outside the discipline: an invalidation of a node in progress is handled by the second pass of the repaired code
+    (`lost_invalidate_*`), a re-attachment of a node in progress makes its frame re-enter below itself
+    (`corpus/C20/pn-reattach-inprogress-ancestor.ops`: no timer lost or late on the real code, correspondence exact); neither is
+    covered by this theorem. -/
+theorem inv_preserved_gpt_sweep (never d k : Nat) (w w' : World) (root now m : Nat)
+    (h : managerGptC never d (k+1) w root now = some (w', m, true)) (hi : Inv never w.f)
+    (hroot : (w.f root).parent = none) : Inv never w'.f :=
+  (managerGptC_settles never d k w w' root now m h hi hroot).1
+
+/-- dropping the verdict of `managerGptC` gives the model's `managerGpt` -/
+theorem managerGptC_is_managerGpt (never d k : Nat) (w w' : World) (root now m : Nat) (b : Bool)
+    (h : managerGptC never d k w root now = some (w', m, b)) : managerGpt never d k w root now = some (w', m) :=
+  (gptC_erase never d k).1 w w' root now never m [] b h
+
+/-- after a disciplined sweep from a root the whole tree below the root is settled: nobody waits in NEEDSRECALC, every node's
+    aggregate is at or below its own time and its first scheduled child's aggregate, SCHEDULED lists are sorted, UNSCHEDULED
+    children have aggregate `never` -/
+theorem gpt_sweep_settles (never d k : Nat) (w w' : World) (root now m : Nat)
+    (h : managerGptC never d (k+1) w root now = some (w', m, true)) (hi : Inv never w.f)
+    (hroot : (w.f root).parent = none) : Settled never w'.f root :=
+  (managerGptC_settles never d k w w' root now m h hi hroot).2.1
+
+/-- `wakeup_is_min`, the half that matters for "no timer is slept through", now WITHOUT a hypothesis on the result: the wake-up
+    time a disciplined sweep reports is at or before the time stored for EVERY node below the root -/
+theorem wakeup_never_late (never d k : Nat) (w w' : World) (root now m : Nat)
+    (h : managerGptC never d (k+1) w root now = some (w', m, true)) (hi : Inv never w.f)
+    (hroot : (w.f root).parent = none) : ∀ n, Desc w'.f root n → m ≤ (w'.f n).myTime := by
+  intro n hn
+  obtain ⟨_, hs, hm⟩ := managerGptC_settles never d k w w' root now m h hi hroot
+  have := (settled_agg_le never w'.f root n hs hn).2
+  omega
+
+/-- `fires_iff_due`, reachability half, WITHOUT a hypothesis on the result: after a disciplined sweep every node below the root
+    whose stored time is `≤ t` has only ancestors with aggregate `≤ t` — the loop condition of `CallPulseAux`/`PulseAux` holds all
+    the way down to it -/
+theorem due_nodes_reachable (never d k : Nat) (w w' : World) (root now m : Nat)
+    (h : managerGptC never d (k+1) w root now = some (w', m, true)) (hi : Inv never w.f)
+    (hroot : (w.f root).parent = none) (n t : Nat) (hn : Desc w'.f root n) (hdue : (w'.f n).myTime ≤ t) :
+    ∀ a, Desc w'.f root a → Desc w'.f a n → (w'.f a).agg ≤ t := by
+  intro a ha han
+  have hs := (managerGptC_settles never d k w w' root now m h hi hroot).2.1
+  have hsa : Settled never w'.f a :=
+    { agg_my := fun p hp => hs.agg_my p (desc_trans ha hp)
+      agg_fsa := fun p hp => hs.agg_fsa p (desc_trans ha hp)
+      agg_le := fun p hp => hs.agg_le p (desc_trans ha hp)
+      sorted := fun p hp => hs.sorted p (desc_trans ha hp)
+      filed := fun p c hp hc => hs.filed p c (desc_trans ha hp) hc }
+  have := (settled_agg_le never w'.f a n hsa han).2
+  omega
 
 /-- the initial state (16 newly constructed nodes … any number) satisfies the invariant -/
 theorem inv_init (never : Nat) : Inv never (World.init never).f := by
@@ -227,12 +281,14 @@ theorem skips_self_if_not_due (never d k : Nat) (w w' : World) (n now : Nat)
 
 /-- FULL STATEMENT (DESIGN `fires_iff_due`): for a tree settled by `getPulseTime` and `t < never`,
     `fired (pulse f root t) = { n below root | n.valid ∧ n.myTime ≤ t }`, each once, each with `(t, n.myTime)`.
-    PROVED: "⊆", "with the time it asked for", "at most once per standing request" (`fires_with_asked_time`,
-    `never_early`, `fired_loses_request`), the per-node rule (`fires_self_if_due`, `skips_self_if_not_due`), and — below —
-    that in a settled tree every due node is *reachable*: all its ancestors have an aggregate time `≤ t`, which is the
-    loop condition of `PulseAux` and of `CallPulseAux`.  MISSING: the induction over the sweep that turns reachability
-    into an entry of the log (needs the membership component of `Inv` to show that a sibling's sweep does not
-    disturb the rest of the SCHEDULED list). -/
+    PROVED: "⊆", "with the time it asked for", "at most once per standing request" (`fires_with_asked_time`, `never_early`,
+    `fired_loses_request`); the per-node rule (`fires_self_if_due`, `skips_self_if_not_due`); that a disciplined sweep leaves
+    the tree settled (`gpt_sweep_settles`) and hence every due node REACHABLE: all its ancestors have an aggregate time `≤ t`,
+    which is the loop condition of `PulseAux` and of `CallPulseAux` (this theorem for any settled tree, `due_nodes_reachable` for
+    the state after a sweep).  STILL MISSING: the induction over the pulse sweep that turns reachability into an entry of the log
+    ("a SCHEDULED child leaves its parent's list only by being visited"; with `Pulse` callbacks that invalidate or detach a due
+    node before its turn the statement is false as it stands, so it needs its own discipline).  Validated on every undisturbed
+    sweep of the correspondence run by the direct oracle (fired set = due set). -/
 theorem fires_iff_due_partial (never : Nat) (f : Forest) (root n t : Nat) (hs : Settled never f root)
     (hn : Desc f root n) (hdue : (f n).myTime ≤ t) :
     ∀ a, Desc f root a → Desc f a n → (f a).agg ≤ t := by
@@ -248,12 +304,14 @@ theorem fires_iff_due_partial (never : Nat) (f : Forest) (root n t : Nat) (hs : 
 
 /-! ## The wake-up time -/
 
-/-- FULL STATEMENT (DESIGN `wakeup_is_min`): `(getPulseTime f root now).min = min over attached nodes of the
-    requested time`.  PROVED: the reported time is at or before the root's new aggregate time, and — when the sweep
-    leaves the tree settled — at or before the request of EVERY node below the root (no timer is ever slept
-    through).  MISSING: (a) that the sweep always leaves the tree settled (true for undisturbed sweeps, checked by the
-    correspondence run and the direct oracle), (b) the reverse inequality (the minimum
-    is attained; it can be undercut when a request is superseded within one sweep, because `min` is only lowered). -/
+/-- FULL STATEMENT (DESIGN `wakeup_is_min`): `(getPulseTime f root now).min = min over attached nodes of the requested time`
+    (0 when a node is left invalid).  PROVED: `≤` every stored time below the root after a disciplined sweep, with no hypothesis on
+    the result (`wakeup_never_late`); here, for ANY run: `≤` the root's new aggregate, and `≤` every stored time if the result is
+    settled; after an in-progress invalidation that survives the second pass the reported time is 0 (`lost_invalidate_live`).
+    STILL MISSING: `≥` (the minimum is attained).  It is FALSE for callbacks that invalidate an already recalculated node and raise
+    its request within one sweep — `min` is only ever lowered, so the superseded answer is reported (spurious early wake-up,
+    corrected in the next cycle; observation recorded in the report) — so it needs the stronger discipline "callbacks only change
+    requests".  Validated on every undisturbed sweep of the correspondence run by the direct oracle (= brute-force minimum). -/
 theorem wakeup_is_min_partial (never d k : Nat) (w w' : World) (root now m : Nat)
     (h : managerGpt never d (k+1) w root now = some (w', m)) :
     m ≤ (w'.f root).agg ∧
@@ -274,8 +332,9 @@ theorem wakeup_is_min_partial (never d k : Nat) (w w' : World) (root now m : Nat
     and is asked again by the next `getPulseTime` on its root.  PROVED HERE: the sweep asks every node it visits that has
     no standing request — first thing, passing the time the node requested before — and it returns from a node only when
     that node's NEEDSRECALC list is empty.  MISSING: that every node without a standing request is *visited*, i.e. sits in
-    the NEEDSRECALC list of its parent and so do all its ancestors (the marking component of `Inv`, proved for the public operations and the pulse sweep
-    in `inv_preserved_partial` / `needsrecalc_reaches_root`, not yet for the `GetPulseTimeAux` sweep). -/
+    the NEEDSRECALC list of its parent and so do all its ancestors (the marking component of `Inv`: `inv_preserved`, `inv_preserved_gpt_sweep`,
+    `needsrecalc_reaches_root`) — that needs "a non-root node without a standing request is flagged NEEDSRECALC" as a further
+    invariant, which is transiently false for a fired node until its `PulseAux` returns and is not proved yet. -/
 theorem reasked_partial (never d k : Nat) (w w' : World) (n now mn mn' : Nat)
     (h : gptAux never d (k+1) w n now mn = some (w', mn')) :
     ((w.f n).valid = false → ∃ ret l, w'.log = w.log ++ [.G n now (w.f n).myTime ret] ++ l) ∧
@@ -324,6 +383,20 @@ theorem lost_invalidate_live (never d k : Nat) (w w' : World) (n now mn m : Nat)
   ⟨gptAux_live never d k w w' n now mn m h,
    fun k2 v v' now2 q hp hq => pulseAux_marks never d k2 v v' n now2 hp q hq⟩
 
+/-! ## Fuel
+
+TERMINATION (a measure that bounds the fuel the engine needs by tree size and script lengths) is NOT proved.  What is proved: the
+fuel is not part of the semantics — a sweep that completes with fuel `k` completes with exactly the same result with every larger
+fuel, so all theorems above are statements about THE result of a sweep, whichever sufficient fuel is passed.  In the
+correspondence runs the engine (fuel 100000) never runs out (it would print `fuel` and mismatch). -/
+
+theorem fuel_irrelevant_partial (never d k k' : Nat) (hk : k ≤ k') :
+    (∀ (w r : World) (n now : Nat), pulseAux never d k w n now = some r → pulseAux never d k' w n now = some r) ∧
+    (∀ (w : World) (n now mn : Nat) (r : World × Nat),
+      gptAux never d k w n now mn = some r → gptAux never d k' w n now mn = some r) :=
+  ⟨fun w r n now h => pulse_fuel_mono never d k k' hk w r n now h,
+   fun w n now mn r h => gpt_fuel_mono never d k k' hk w n now mn r h⟩
+
 /-! ## Non-vacuity: a two-node history in which the child fires exactly on time -/
 
 def sampleOps : List Op :=
@@ -342,5 +415,15 @@ example : (runOps 1000 8 40 (World.init 1000)
       [.attach 1 0, .setReq 1 50, .script true 1 [.inval 1 false], .script true 1 [.inval 1 false],
        .gpt 0 10, .pulse 0 10, .gpt 0 10]).map (fun w => (w.log, (w.f 1).valid)) =
     some ([.G 0 10 1000 1000, .G 1 10 1000 50, .G 1 10 50 50, .G 1 10 50 50], true) := by decide +kernel
+
+/-- non-vacuity of the discipline: node 1's `GetPulseTime` invalidates the already recalculated node 2 and changes its request —
+    verdict `true`, node 2 is asked again, the sweep reports the new minimum; node 1 invalidating ITSELF — verdict `false` -/
+example : ((runOps 1000 8 40 (World.init 1000)
+      [.attach 1 0, .attach 2 0, .setReq 1 50, .setReq 2 60, .script true 1 [.inval 2 false, .setReq 2 30]]).bind
+      fun w => managerGptC 1000 8 40 w 0 10).map (fun r => (r.2.1, r.2.2, r.1.log)) =
+    some (30, true, [.G 0 10 1000 1000, .G 2 10 1000 60, .G 1 10 1000 50, .G 2 10 60 30]) := by decide +kernel
+
+example : ((runOps 1000 8 40 (World.init 1000) [.attach 1 0, .setReq 1 50, .script true 1 [.inval 1 false]]).bind
+      fun w => managerGptC 1000 8 40 w 0 10).map (fun r => (r.2.1, r.2.2)) = some (50, false) := by decide +kernel
 
 end Muscle.Props.C20
